@@ -62,6 +62,7 @@ type c9tD struct {
 type c9gen struct {
 	r    *vk.Rand
 	nbin int
+	prev [][]byte
 }
 
 var c9strMenu = []string{"", "a", "EVENT_NAME", "a\\", "\\", "\\\\", "a\"b", "\"", "x\\\"y\\", "<tag>&amp;", "line\nbreak\ttab\r", "\b\f\x01\x1f", " sep ", "héllo wörld", "日本語", "😀 emoji", "/slash", "[1,2]", "{\"_placeholder\":true}", "nul\x00byte", "del\x7f", "q'uote", "back\\slash\\n"}
@@ -92,45 +93,48 @@ func (g *c9gen) str() string {
 }
 
 // bin returns a binary leaf whose content is unique within the case.
+// bin returns the bytes of a binary leaf. Boundary table first (high probability): nil, empty,
+// one byte, a copy of an earlier leaf of the same packet (equal attachments), bytes that read like
+// JSON / a placeholder; then random lengths.
 func (g *c9gen) bin() []byte {
 	g.nbin++
-	b := []byte{byte(g.nbin), 0xB1}
-	switch g.r.Intn(5) {
+	switch g.r.Intn(12) {
 	case 0:
-		b = append(b, g.r.Bytes(g.r.Intn(20))...)
-	case 1:
-		b = append(b, []byte(`{"_placeholder":true,"num":0}`)...)
-	case 2:
-		b = append(b, 0, 255, 10, 34, 92)
+		return nil
+	case 1, 2:
+		return []byte{}
+	case 3:
+		return []byte{byte(g.r.Intn(256))}
+	case 4:
+		if len(g.prev) > 0 {
+			return append([]byte{}, g.prev[g.r.Intn(len(g.prev))]...)
+		}
+		return []byte{0}
+	case 5:
+		return []byte(`{"_placeholder":true,"num":0}`)
+	case 6:
+		return []byte("null")
+	case 7:
+		return []byte{0, 255, 10, 34, 92}
 	}
+	b := g.r.Bytes(g.r.Intn(40))
+	g.prev = append(g.prev, b)
 	return b
 }
 
 func (g *c9gen) i64(small bool) int64 {
-	switch g.r.Intn(8) {
-	case 0:
-		return 0
-	case 1:
-		return -1
-	case 2:
-		return int64(g.r.Intn(1000))
-	case 3:
-		return -int64(g.r.Intn(100000))
-	case 4:
-		return 1<<53 - 1
-	case 5:
-		if small {
-			return -(1<<53 - 1)
-		}
-		return -1 << 63
-	case 6:
-		if small {
-			return int64(g.r.U64() % (1 << 53))
-		}
-		return 1<<63 - 1
-	default:
-		return int64(g.r.Intn(1 << 20))
+	// small: the value also has to survive a float64 (decoding into `any`)
+	table := []int64{0, 0, -1, 1, 1<<53 - 1, -(1<<53 - 1), 1 << 31, -(1 << 31), 1<<32 + 1, 255, -256}
+	if !small {
+		table = append(table, 1<<53, 1<<53+1, -(1 << 53), -(1<<53 + 1), 1<<63-1, -1<<63, 1<<62)
 	}
+	if g.r.Intn(3) != 0 {
+		return table[g.r.Intn(len(table))]
+	}
+	if g.r.Bool() {
+		return -int64(g.r.Intn(100000))
+	}
+	return int64(g.r.Intn(1 << 20))
 }
 
 func (g *c9gen) c9tA(bin bool) c9tA {
@@ -295,7 +299,17 @@ func (g *c9gen) genAny(d int, bin, hard bool) any {
 			a := g.c9tA(true)
 			return map[string]any{"byval": a} // refused: struct by value as a map value
 		}
-		return g.str()
+		// zero values: unset Binary fields (nil), nil pointers / slices / maps, empty strings
+		switch g.r.Intn(4) {
+		case 0:
+			return &c9tA{}
+		case 1:
+			return &c9tB{}
+		case 2:
+			return &c9tC{}
+		default:
+			return &c9tD{}
+		}
 	case 22:
 		if bin {
 			a := g.c9tA(true)
@@ -388,7 +402,8 @@ func c9toGV(v reflect.Value, idx map[string]int) c9tree {
 		return []any{"i", strconv.FormatUint(v.Uint(), 10)}
 	case reflect.Float64, reflect.Float32:
 		f := v.Float()
-		if f == float64(int64(f)) {
+		// beyond 2^53 a float64 no longer identifies the integer that was sent: outside the model
+		if f == float64(int64(f)) && f < 1<<53 && f > -(1<<53) {
 			return []any{"i", strconv.FormatInt(int64(f), 10)}
 		}
 		return []any{"f", f}
@@ -886,6 +901,18 @@ func c9fixedCases() []c9codecCase {
 		ev("fake-placeholder", "/", nil, "e", map[string]any{"_placeholder": true, "num": 0}, c9Bin("real")),
 		ev("big-id", "/x", u(18446744073709551615), "e", int64(-1<<63)),
 		ev("digits-nsp", "/12", u(34), "e"),
+		// boundary table of every leaf kind
+		ev("bin-empty", "/demo", u(7), "e", c9Bin("first"), &c9tA{Name: "", BinF: c9Bin{}}, c9Bin("last")),
+		ev("bin-nil-field", "/", nil, "e", &c9tA{Name: "unset"}, c9Bin("x")),
+		ev("bin-only-empty", "/", nil, "e", c9Bin{}),
+		ev("bin-equal", "/", nil, "e", c9Bin("same"), c9Bin("same"), []c9Bin{c9Bin("same"), {}, nil}),
+		ev("name-empty", "/", nil, "", "x"),
+		ev("name-empty-bin", "", u(0), "", c9Bin{}),
+		ev("zero-structs", "/", nil, "e", &c9tA{}, &c9tB{}, &c9tC{}, &c9tD{}),
+		ev("empty-containers", "/", nil, "e", []any{}, map[string]any{}, []c9Bin{}, "", []string{}),
+		ev("nil-things", "/", nil, "e", nil, []any(nil), map[string]any(nil), &c9tB{}),
+		ev("ints", "/", nil, "e", int64(0), int64(-1), int64(1<<53-1), int64(-(1<<53 - 1)), &c9tB{N: 1<<53 + 1}, &c9tB{N: -1 << 63}, &c9tB{N: 1<<63 - 1}),
+		ack("ack-bin-empty", "/a", u(1), c9Bin{}, c9Bin(nil)),
 		ack("ack-empty", "/", u(0)),
 		ack("ack-nsp-digits", "/9", u(9), 9),
 	}
@@ -912,7 +939,7 @@ func c9hasFloat(t c9tree) bool {
 		}
 		if s, ok := l[0].(string); ok && s == "i" {
 			z, err := strconv.ParseInt(l[1].(string), 10, 64)
-			if err != nil || z > 1<<53 || z < -(1<<53) {
+			if err != nil || z >= 1<<53 || z <= -(1<<53) {
 				return true
 			}
 		}
